@@ -244,6 +244,12 @@ OPAQUE_METHODS = {
 
 def opaque_getattr(ex, base, attr, node):
     cls = base.cls
+    tc0 = ex.top_contract
+    if tc0 is not None and attr in tc0.callees and getattr(tc0.callees[attr], 'sig', None) \
+            and tc0.callees[attr].key.startswith('external::' + (cls or '') + '.'):
+        # a contract of the function under verification on this very method takes precedence over the built-in model
+        from .calls import VExt
+        return VExt(tc0.callees[attr], base)
     if (cls, attr) in OPAQUE_METHODS:
         return VBuiltin(OPAQUE_METHODS[(cls, attr)], base)
     spec = ex.class_specs.get(cls) if cls else None
@@ -1457,7 +1463,21 @@ def _isdigit(ex, fn, args, kw, node):
 
 @builtin('str.encode')
 def _encode(ex, fn, args, kw, node):
-    ex.limit('str.encode', node)
+    """s.encode('utf-8'): a bytes object; 1..4 bytes per character, exactly len(s) bytes iff s is ASCII.
+    (Lone surrogates make the real call raise UnicodeEncodeError: outside the string model, A-BUILTIN.)"""
+    s = ex.res(fn.self_val)
+    enc = ex.res(args[0]).concrete() if args else 'utf-8'
+    if not isinstance(s, VStr) or enc is None or enc.lower().replace('_', '-') not in ('utf-8', 'utf8'):
+        ex.limit('str.encode with this encoding', node)
+    b = z3.Const(ex.fresh_name('encoded'), RefSort)
+    n = z3.Length(s.t)
+    ex.assume(bytes_len(b) >= n)
+    ex.assume(bytes_len(b) <= 4 * n)
+    ascii_re = z3.Star(z3.Range(chr(0), chr(127)))
+    ex.assume((bytes_len(b) == n) == z3.InRe(s.t, ascii_re))
+    ex.assume(valid_utf8(b))
+    ex.used_assumptions.add('A-BUILTIN: str.encode(utf-8) yields 1..4 bytes per character, len(s) bytes iff ASCII')
+    return VOpaque(b, 'bytes')
 
 
 @builtin('str.count')
